@@ -90,6 +90,22 @@ CHECKS = {
          '3/C19'),
 }
 
+# sentences appended to the level text: workloads added in the last session
+EXTRA_TEXT = {
+ 'C01': 'A class asks SetCoords/Coords at EVERY number of coordinates 0..6,000 (thorough ..30,000), so a block seam of any size is visited.',
+ 'C03': 'A class encodes and decodes a line string, multipoint and polygon of EVERY number of coordinates 0..5,040 (thorough ..20,160) in all six formats; SQL wrappers are asked for their value again after the caller edited the geometry; geometries are also built over storage with spare capacity.',
+ 'C05': 'Classes write and parse EVERY number of coordinates 0..3,000 (thorough ..20,000) and parse texts nesting 255..131,072 collections.',
+ 'C07': 'Classes decode documents as other software writes them (members left out, null, reordered, escaped ids) and marshal/unmarshal EVERY number of positions 0..3,000 (thorough ..20,000).',
+ 'C08': 'A class takes the bounds of lines of EVERY number of coordinates 1..6,000 (thorough ..30,000) with the extreme ordinate at a chosen coordinate.',
+ 'C09': 'Closed-form shapes (sums of small integers, exact in any order) are measured at EVERY number of vertices 0..10,000 (thorough ..40,000), at 2^20..2^23 vertices and as 2^16..2^19 parts.',
+ 'C14': 'Closed-form rectangle, line and point set are asked at EVERY size 5..8,004 (thorough ..40,004).',
+ 'C15': 'A class asks the point-to-linestring distance on unit-step lines of EVERY length 2..9,001 (thorough ..40,001) and at 40 lengths of 10,000..120,000 with the nearest segment at block seams.',
+ 'C16': 'Clones of EVERY number of coordinates 0..12,000 (thorough ..40,000) and of 2^23..2^24 ordinates are compared ordinate by ordinate; nil-ness of the accessors is compared as well.',
+ 'C18': 'A class writes WKT of EVERY number of coordinates 0..4,500 (thorough ..20,000) with digit limits none and 0..4 and reads it back with the independent reader.',
+ 'C19': 'Tracks of EVERY number of fixes 0..3,000 (thorough ..12,000) go through the round trip; the process time zone is varied.',
+ 'C20': 'Closed-form sequences (straight, stationary, zig-zag) are simplified at EVERY length 0..9,000 (thorough ..70,000) and at 48 lengths of 10,000..140,000.',
+}
+
 PLANNED = ['C%02d' % i for i in range(1, 21)]
 
 def main():
@@ -97,6 +113,8 @@ def main():
     checks = []
     for pid in implemented:
         tech, text, note, ref = CHECKS[pid]
+        if pid in EXTRA_TEXT:
+            text = text + ' ' + EXTRA_TEXT[pid]
         checks.append({
             'property_id': pid,
             'quick_cmd': './check %s quick' % pid,
